@@ -23,6 +23,15 @@ def system(kind, threads):
     return aotools.CovarianceMatrix(3, masks, 4.0, [4.0 / len(masks[0])] * 3, H, [[10, 0], [-5, 8], [3, -12]], [5e-7, 6e-7, 5.5e-7], 2, numpy.array([0., 8000.]), [0.2, 0.4], [25., 15.], threads)
 
 
+def system_layers(threads, n_wfs, n_layers):
+    """more layers than sensor pairs (1 sensor x 3..4 layers, 2 sensors x 4..5 layers)"""
+    rng = numpy.random.default_rng(17)
+    masks = [(rng.random((5, 5)) > 0.35).astype(float), aotools.circle(2.5, 5)][:n_wfs]
+    alts = numpy.array([0., 3000., 7000., 11000., 15000.])[:n_layers]
+    return aotools.CovarianceMatrix(n_wfs, masks, 4.0, [0.8] * n_wfs, [0, 90000.][:n_wfs], [[10, 0], [-5, 8]][:n_wfs], [5e-7, 6e-7][:n_wfs], n_layers, alts,
+                                    [0.2, 0.4, 0.3, 0.25, 0.5][:n_layers], [25., 15., 30., 20., 10.][:n_layers], threads)
+
+
 def system3(threads, n_wfs=3):
     """three layers (float32 accumulation over >= 3 terms is order dependent), unequal sub-aperture counts, NGS + LGS"""
     rng = numpy.random.default_rng(9)
@@ -116,6 +125,16 @@ def chk_builds(inp):
                 if M.shape != ref3.shape or not numpy.array_equal(M, ref3):
                     return bad("%d sensors (%d pairs), 3 layers, %d workers: matrix is not bit-identical to the single-process one" % (n_wfs, n_wfs * (n_wfs + 1) // 2, t),
                                int((M != ref3).sum()) if M.shape == ref3.shape else list(M.shape), 0)
+    if not (inp and inp.get("no_schedules")):
+        for (n_wfs, n_layers) in ((1, 3), (1, 4), (2, 4), (2, 5)):
+            refl = system_layers(1, n_wfs, n_layers).make_covariance_matrix().copy()
+            cm = system_layers(2, n_wfs, n_layers)
+            for t in (2, 1, 3, 2):
+                cm.threads = t
+                M = cm.make_covariance_matrix()
+                if M.shape != refl.shape or not numpy.array_equal(M, refl):
+                    return bad("%d sensor(s), %d layers (more layers than sensor pairs), %d workers: matrix is not bit-identical to the single-process one" % (n_wfs, n_layers, t),
+                               int((M != refl).sum()) if M.shape == refl.shape else list(M.shape), 0)
     for kind in kinds:
         ref = system(kind, 1).make_covariance_matrix().copy()
         for seq in ([1, 1], [2, 2], [1, 2, 1], [3, 1, 1, 2]):
